@@ -20,6 +20,23 @@ def _dt_same(cell, k, col, r):
         if oc is None: return missing
         if isinstance(oc, SymDT) and oc.unit in _US: return z3.And(z3.Not(missing), us == oc.e * _US[oc.unit])
         return T(False)
+    if col.dtype == "string":
+        # JSON has no dates: the ISO text of the value stands for it, and must lose nothing
+        if type(oc) is str and oc.startswith("\ue100iso"):
+            from .. import symdt
+            tk = symdt.iso_lookup(oc)
+            return z3.And(z3.Not(missing), us == tk[0] * _US[tk[1]]) if tk is not None and tk[1] in _US else T(False)
+        if type(oc) is str:
+            if oc == "": return missing
+            import datetime as _dtm
+            try:
+                d = _dtm.datetime.fromisoformat(oc)
+            except ValueError:
+                return T(False)
+            t = (d - _dtm.datetime(1970, 1, 1)) // _dtm.timedelta(microseconds=1)
+            return z3.And(z3.Not(missing), us == BV(t))
+        c = symx.tocell(oc) if not isinstance(oc, str) or isinstance(oc, symx.SymStr) else None
+        return z3.And(missing, c.is_empty()) if c is not None else T(False)
     if not col.dtype.startswith("datetime64["): return T(False)
     unit = col.dtype[len("datetime64["):-1]
     o_missing = oc == symx.INT64_MIN
@@ -65,6 +82,16 @@ class Convert(Harness):
                 if kind_of(c) == "f":
                     for x in c.cells: ctx.assume(z3.Not(z3.fpIsInf(x)), note="JSON leg: finite floats or NaN (JSON has no Infinity)")
         return {"data": Frame(cols), "leg": self.leg}
+    def probes(self, inp):
+        # str() of a date / datetime is an uninterpreted lossless text in the model: observe the real text where precision matters
+        pr = []
+        for nm, col in inp["data"].cols.items():
+            if kind_of(col) == "us":
+                pr.append((f"{nm}: a datetime with an odd number of microseconds", z3.Or([z3.And(c != symx.INT64_MIN, z3.Extract(0, 0, c) == 1) for c in col.cells])))
+                pr.append((f"{nm}: a datetime before the year 1000", z3.Or([z3.And(c != symx.INT64_MIN, c < -30610224000 * 10**6) for c in col.cells])))
+            if kind_of(col) == "D":
+                pr.append((f"{nm}: a date before the year 1000", z3.Or([z3.And(c != symx.INT64_MIN, c < -354285) for c in col.cells])))
+        return pr
     def spec(self, inp, out):
         if isinstance(out, Raised): return [(f"does not raise ({out.type}: {out.msg[:80]})", T(False))]
         data = inp["data"]; n = len(next(iter(data.cols.values())))
@@ -232,6 +259,7 @@ def harnesses(tier):
     q = tier == "quick"
     n = 2 if q else 3
     hs = [Convert("lod", ["f", "T"], n), Convert("lod", ["i", "b"], n), Convert("json", ["f", "T"], n), Convert("json", ["i", "b"], n)]
+    hs += [Convert("json", ["D", "us"], 2)]
     if not q: hs += [Convert("lod", ["D", "us"], n)]
     for kind in ("pandas", "arrow"):
         hs.append(Export(kind, ["T", "f"], n))
